@@ -22,9 +22,10 @@ import os
 import shutil
 import tempfile
 
-LEAN_MODULES = ['Pycdlib.Props.C13']
+LEAN_MODULES = ['Pycdlib.Props.C13', 'Pycdlib.Props.C01Tree', 'Pycdlib.Props.C14']
 THEOREMS = ['Pycdlib.check_file_iff', 'Pycdlib.check_dir_iff', 'Pycdlib.check_refusal_documented',
-            'Pycdlib.isD1_matches_source', 'Pycdlib.splitLast_eq_some', 'Pycdlib.splitLast_eq_none']
+            'Pycdlib.isD1_matches_source', 'Pycdlib.splitLast_eq_some', 'Pycdlib.splitLast_eq_none',
+            'Pycdlib.Spec.history_is_forest', 'Pycdlib.Atomic.run_preserves_wf']
 PARTIAL = {
     'unique_idents / idents_legal over edit histories': 'stated on the edit-state model in Props/C04 (sortedness and '
     'distinctness of children) for the ISO9660/Joliet fragment; UDF and Rock Ridge names are covered by the S-api oracle only',
@@ -272,6 +273,12 @@ def run_api(ctx):
                         if rr:
                             op['rr'] = 'r'
                         scenario(ctx, tmpdir, cfg, [op], 'width-iso-dir:L%d:%d' % (lvl, ln))
+                        lk = {'op': 'addlink', 'ons': 'i', 'old': '/SRC.;1', 'nns': 'i', 'new': '/' + 'L' * max(1, ln - 6) + '.EXT;1'}
+                        src = {'op': 'addfp', 'cid': 9, 'n': 3, 'iso': '/SRC.;1'}
+                        if rr:
+                            lk['rr'] = 'lnk'
+                            src['rr'] = 'src'
+                        scenario(ctx, tmpdir, cfg, [src, lk], 'width-iso-link:L%d:%d' % (lvl, ln))
                         op2 = {'op': 'addfp', 'cid': 1, 'n': 3, 'iso': '/' + 'B' * max(1, ln - 6) + '.EXT;1'}
                         if rr:
                             op2['rr'] = 'r'
